@@ -241,8 +241,26 @@ fn hunt_prop(prop: &str) -> ! {
     std::process::exit(0)
 }
 
+// src/py_extract.rs is (re)generated by vx/witness.py on every build: the text of python.rs::replace_unicode_escape_sequences, byte for byte
+mod py_extract;
+
+/// `py-escapes TEXT`: applies the extracted function to TEXT; fails if a Rust-style \\u{..} escape is left or CPython's re rejects the result
+fn py_escapes(text: &str) -> ! {
+    let out = py_extract::replace_unicode_escape_sequences(text.to_string());
+    println!("python pattern: {out}");
+    let mut ok = true;
+    if out.contains("\\u{") { println!("FAIL: a \\u{{..}} escape is left in the pattern"); ok = false; }
+    match std::process::Command::new("python3").args(["-c", "import re,sys; re.compile(sys.argv[1])", &out]).output() {
+        Ok(o) if !o.status.success() => { println!("FAIL: CPython re.compile rejects the pattern: {}", String::from_utf8_lossy(&o.stderr).lines().last().unwrap_or("")); ok = false; }
+        Ok(_) => println!("ok: CPython re.compile accepts the pattern"),
+        Err(e) => println!("(python3 not run: {e})"),
+    }
+    std::process::exit(if ok { 0 } else { 1 })
+}
+
 fn main() {
     let args: Vec<String> = std::env::args().skip(1).collect();
+    if args.first().map(|a| a == "py-escapes").unwrap_or(false) { py_escapes(args.get(1).map(|x| x.as_str()).unwrap_or("")) }
     if args.first().map(|a| a == "hunt-prop").unwrap_or(false) { hunt_prop(args.get(1).map(|x| x.as_str()).unwrap_or("")) }
     if args.first().map(|a| a == "hunt-sound").unwrap_or(false) { hunt_sound() }
     if args.first().map(|a| a == "hunt-lang").unwrap_or(false) { hunt_lang(args.iter().any(|a| a == "--ignore-kf1")) }
